@@ -137,6 +137,29 @@ Record svc_method := mkSM { sm_internal : bool; sm_decision : decision }.
 Definition is_lro (d : decision) : bool := match d with Lro _ _ => true | _ => false end.
 Definition has_operations_client (ms : list svc_method) : bool := existsb (fun m => is_lro (sm_decision m)) ms.
 
+(* ------------------------------------------------------------------ the REST operations client's http_options *)
+(* API.http_options + the operations_client property of transports/rest.py.j2: for every http rule of the service
+   YAML whose selector starts with google.longrunning.Operations, ONE dict entry keyed by the selector, holding the
+   primary binding followed by the additional bindings, in order; a binding without a verb pattern is dropped; the
+   body key is printed only when not empty *)
+Record binding := mkB { b_method : string; b_uri : string; b_body : string }.
+Record http_rule := mkHR { hr_selector : string; hr_bindings : list (option binding) (* primary :: additional; None: no pattern *) }.
+Record printed_binding := mkPB { pb_method : string; pb_uri : string; pb_body : option string }.
+
+Definition OPERATIONS_PREFIX : string := "google.longrunning.Operations".
+Definition print_binding (b : binding) : printed_binding :=
+  mkPB (b_method b) (b_uri b) (if is_empty (b_body b) then None else Some (b_body b)).
+Fixpoint usable (bs : list (option binding)) : list binding :=
+  match bs with [] => [] | Some b :: r => b :: usable r | None :: r => usable r end.
+Definition is_operations_rule (r : http_rule) : bool := starts_with OPERATIONS_PREFIX (hr_selector r).
+Definition ops_http_options (rules : list http_rule) : list (string * list printed_binding) :=
+  map (fun r => (hr_selector r, map print_binding (usable (hr_bindings r)))) (filter is_operations_rule rules).
+
+Definition pb_eqb (a b : printed_binding) : bool :=
+  String.eqb (pb_method a) (pb_method b) && String.eqb (pb_uri a) (pb_uri b) && option_eqb String.eqb (pb_body a) (pb_body b).
+Definition http_options_eqb (a b : list (string * list printed_binding)) : bool :=
+  list_eqb (fun x y => String.eqb (fst x) (fst y) && list_eqb pb_eqb (snd x) (snd y)) a b.
+
 (* ------------------------------------------------------------------ contract: the operation future *)
 (* google.protobuf.Any *)
 Record any := mkAny { a_url : string; a_payload : string }.
